@@ -12,6 +12,7 @@ import ElfiVerif.Drive.C03
 import ElfiVerif.Drive.C02
 import ElfiVerif.Drive.C16
 import ElfiVerif.Drive.C17
+import ElfiVerif.Drive.C08
 
 /-!
 Line-protocol driver: one JSON request per line on stdin (`{"op": "<Cxx.name>", …}`), one JSON answer
@@ -27,7 +28,8 @@ def allHandlers : List (String × H) :=
   ElfiVerif.Drive.C18.handlers ++ ElfiVerif.Drive.C09.handlers ++
   ElfiVerif.Drive.C19.handlers ++ ElfiVerif.Drive.C14.handlers ++
   ElfiVerif.Drive.C03.handlers ++ ElfiVerif.Drive.C02.handlers ++
-  ElfiVerif.Drive.C16.handlers ++ ElfiVerif.Drive.C17.handlers
+  ElfiVerif.Drive.C16.handlers ++ ElfiVerif.Drive.C17.handlers ++
+  ElfiVerif.Drive.C08.handlers
 
 def handleLine (line : String) : String :=
   match Json.parse line with
